@@ -433,8 +433,8 @@ func anyCase(cw *caseWriter, p []byte, label string) {
 	got := readOnce(identityMode{}, p)
 	prop := "pass"
 	anyCounter++
-	if anyCounter%4 == 0 {
-		// what the decoder returns does not depend on the log level
+	if anyCounter%1 == 0 {
+		// what the decoder returns does not depend on the log level (every case is decoded a second time at trace level)
 		old := rscp.Log.GetLevel()
 		oldOut := rscp.Log.Out
 		rscp.Log.SetOutput(io.Discard)
@@ -756,9 +756,9 @@ func init() {
 			}
 		}
 		// deeply nested containers: decoding has to stay linear in the size of the frame
-		depths := []int{25, 40, 64, 200, 1000}
+		depths := []int{25, 40, 64, 200, 1000, 9358} // 9358 levels of 7 bytes + one 8-byte item = the largest frame
 		if thorough {
-			depths = append(depths, 3000, 9000)
+			depths = append(depths, 3000, 6000, 8000, 9000)
 		}
 		for _, d := range depths {
 			it := itemBytes(0x00800005, 3, []byte{9})
